@@ -1,7 +1,8 @@
 ------------------------------- MODULE Pager -------------------------------
 (* Exit status and pager protocol (src/main.rs run_app, src/utils/bat/output.rs, env.rs). *)
 (* A scenario is a record:                                                                 *)
-(*   mode     "stdin" | "diff" | "wrap"      how delta gets its input                        *)
+(*   mode     "stdin" | "diff" | "wrap"      how delta gets its input; "showconfig" | "version":   *)
+(*            no input, delta prints what it was asked for                                       *)
 (*   out      "stdout" | "pager"             where the output goes                            *)
 (*   quit     0 = the consumer stays; n > 0 = the consumer goes away at the n-th write /      *)
 (*            after n bytes (pager)                                                           *)
@@ -18,7 +19,7 @@
 EXTENDS Naturals, Sequences, FiniteSets
 
 \* --- exit status ---
-NormalExit(sc) == CASE sc.mode = "stdin" -> 0
+NormalExit(sc) == CASE sc.mode \in {"stdin", "showconfig", "version"} -> 0      \* (informational output: --show-config, --version)
                     [] sc.mode = "diff"  -> sc.status   \* 0 same, 1 different, >= 2 trouble
                     [] sc.mode = "wrap"  -> sc.status
 WantExit(sc) == IF sc.quit > 0 THEN 0 ELSE NormalExit(sc)      \* reader gone: stop quietly
